@@ -1,0 +1,9 @@
+//go:build !verif
+
+package common
+
+// simLock and simUnlock are hooks for the deterministic simulator
+// (build tag "verif"). They are no-ops in normal builds.
+func simLock(m *Mutex) {}
+
+func simUnlock(m *Mutex) {}
